@@ -193,6 +193,9 @@ SparseMatrixCOO<T>::SparseMatrixCOO(SparseMatrixCOO&& other) noexcept
 template <typename T>
 SparseMatrixCOO<T>& SparseMatrixCOO<T>::operator=(SparseMatrixCOO&& other) noexcept
 {
+    if (this == &other) {
+        return *this; // Handle self-assignment
+    }
     rows_               = other.rows_;
     columns_            = other.columns_;
     nnz_                = other.nnz_;
